@@ -32,6 +32,7 @@ package inmem
 //@   ensures [foreign-rejected] (exists i int :: 0 <= i && i < 8 && i < len(bookmark) && bookmark[i] != cookieByte(i)) ==> err != nil
 //@   ensures [inverse] forall p int64 :: -9223372036854775808 <= p && p <= 9223372036854775807 && isBookmarkOf(bookmark, p) ==> err == nil && result0 == p
 //@   ensures [accepted-wellformed] err == nil ==> isBookmarkOf(bookmark, result0)
+//@   ensures [reject-class] err != nil ==> typeis(err, "eInvalidWatchBookmark")
 
 // ---------------------------------------------------------------------------
 // ResourceCollection: ring buffer of events over a ghost log of everything
@@ -44,6 +45,8 @@ package inmem
 //@   invariant [shape] ringShape(self)
 //@   invariant [ring] ringWindow(self)
 //@   invariant [logwf] logWF(self)
+//@   rely [mono] old(self.writePos) <= self.writePos && old(self.capacity) <= self.capacity
+//@   rely [log-stable] forall p int64 :: 0 <= p && p < old(self.writePos) ==> self.log[p] == old(self.log[p])
 //@
 //@ pred ringShape(c *ResourceCollection) := c.cap0 >= 1 && 0 <= c.gap && c.gap <= c.cap0 && c.capacity >= c.cap0 &&
 //@   len(c.stream) == c.capacity && c.writePos >= 0 && (c.writePos <= c.capacity || c.capacity >= c.maxCapacity) && c.c != nil
@@ -71,3 +74,41 @@ package inmem
 //@     collection.log[old(collection.writePos)].Resource == event.Resource &&
 //@     collection.log[old(collection.writePos)].Old == event.Old && collection.log[old(collection.writePos)].Error == event.Error
 //@   ensures [log-stable] forall p int64 :: 0 <= p && p < old(collection.writePos) ==> collection.log[p] == old(collection.log[p])
+
+//@ func NewResourceCollection
+//@   props C02
+//@   requires [config] 1 <= initialCapacity && 0 <= gap && gap <= initialCapacity
+//@   ghost result.cap0 = initialCapacity
+//@   ensures [fresh] result != nil && fresh(result)
+//@   ensures [inv-shape] ringShape(result)
+//@   ensures [inv-ring] ringWindow(result)
+//@   ensures [inv-logwf] logWF(result)
+//@   ensures [empty] result.writePos == 0 && len(result.storage) == 0 && result.cap0 == initialCapacity && result.gap == gap
+
+// ---------------------------------------------------------------------------
+// Watch (single resource): set-up under the lock, delivery goroutine.
+
+//@ pred bookmarkWindow(c *ResourceCollection, p int64) := c.writePos - c.capacity + c.gap <= p && 0 <= p && p < c.writePos
+//@ pred idOfEvent(e state.Event) := mdOf(e.Resource).id
+//@
+//@ func (*ResourceCollection).Watch
+//@   props C12 C02
+//@   autouse ring, logwf
+//@   requires collection != nil
+//@   requires [opts-nonnil] forall i int :: 0 <= i && i < len(opts) ==> opts[i] != nil
+//@   ensures [bookmark-accept-exact] err == nil && options.TailEvents <= 0 && options.StartFromBookmark != nil ==>
+//@     isBookmarkOf(options.StartFromBookmark, pos - 1) && bookmarkWindow(collection, pos - 1)
+//@   ensures [bookmark-nothing-lost] err == nil && options.TailEvents <= 0 && options.StartFromBookmark != nil ==>
+//@     collection.writePos - pos <= collection.capacity && 0 <= pos && pos <= collection.writePos
+//@   ensures [bookmark-reject-class] options.TailEvents <= 0 && options.StartFromBookmark != nil && err != nil ==> typeis(err, "eInvalidWatchBookmark")
+//@   ensures [bookmark-recent-accepted] options.TailEvents <= 0 && options.StartFromBookmark != nil ==>
+//@     (forall p int64 :: isBookmarkOf(options.StartFromBookmark, p) && 0 <= p && p < collection.writePos && collection.writePos - (collection.cap0 - collection.gap) <= p ==> err == nil)
+//@   ensures [tail-start] err == nil && options.TailEvents > 0 ==> 0 <= pos && pos <= collection.writePos && collection.writePos - pos <= collection.capacity - collection.gap
+//@   ensures [live-start] err == nil && options.TailEvents <= 0 && options.StartFromBookmark == nil ==> pos == collection.writePos
+//@   loop #2
+//@     invariant [tail-scan] held(collection.mu)
+//@   at Metadata #1
+//@     assert [tail-ring-inst; using ring] collection.stream[(pos-1) % collection.capacity] == collection.log[pos-1]
+//@     assert [tail-log-inst; using logwf] collection.log[pos-1].Resource != nil
+//@   loop #2
+//@     invariant [tail-pos] minPos <= pos && pos <= collection.writePos && 0 <= minPos && collection.writePos - collection.capacity + collection.gap <= minPos
